@@ -143,6 +143,107 @@ func runC18(r *kit.Run) {
 		}
 		c18History(r, i, r.Rng("conc", i))
 	}
+	nsa := int64(r.Scale(24, 600))
+	for i := int64(0); i < nsa && !r.Stopped(); i++ {
+		if !r.Mine(i) {
+			continue
+		}
+		c18SortUnderAdd(r, i, r.Rng("sortadd", i))
+	}
+}
+
+// c18SortUnderAdd: a large synchronized, ordered set is sorted again and
+// again while another goroutine keeps adding new values. Whatever order
+// the calls take effect in, no member may get lost or doubled: after the
+// adder has stopped the iterator yields every member exactly once.
+func c18SortUnderAdd(r *kit.Run, idx int64, rng *rand.Rand) {
+	size := 1500 + rng.IntN(3000)
+	sorts := 3 + rng.IntN(6)
+	merge := rng.IntN(3) != 0
+	procs := kit.ProcsFor(idx)
+	if procs < 2 {
+		procs = 2
+	}
+	desc := map[string]any{"initial_members": size, "sorts": sorts, "algorithm": map[bool]string{true: "SortMerge", false: "SortQuick"}[merge], "gomaxprocs": procs}
+	s := &dt.Set[int]{}
+	s.Synchronize()
+	s.Order()
+	for _, v := range rng.Perm(size) {
+		s.Add(v)
+	}
+	var added atomic.Int64
+	var stop atomic.Bool
+	var fatal atomic.Value
+	r.Eval()
+	r.Current(idx, fmt.Sprintf("C18 sort-under-add %v", desc))
+	kit.WithProcs(procs, func() {
+		var wg sync.WaitGroup
+		wg.Add(1)
+		go func() {
+			defer wg.Done()
+			defer func() {
+				if p := recover(); p != nil {
+					fatal.Store(fmt.Sprint(p))
+				}
+			}()
+			for v := size; !stop.Load(); v++ {
+				s.Add(v)
+				added.Add(1)
+			}
+		}()
+		func() {
+			defer func() {
+				if p := recover(); p != nil {
+					fatal.Store(fmt.Sprint(p))
+				}
+			}()
+			lt := func(a, b int) bool { return a < b }
+			for k := 0; k < sorts; k++ {
+				if merge {
+					s.SortMerge(lt)
+				} else {
+					s.SortQuick(lt)
+				}
+			}
+		}()
+		stop.Store(true)
+		wg.Wait()
+	})
+	if p := fatal.Load(); p != nil {
+		r.Violation("C18/Set.sort-under-add/panic", idx, desc, p.(string), nil)
+		return
+	}
+	total := size + int(added.Load())
+	desc["added_meanwhile"] = added.Load()
+	seen := make(map[int]int, total)
+	n := 0
+	it := s.Iterator()
+	for it.Next(context.Background()) {
+		seen[it.Value()]++
+		n++
+		if n > 2*total+10 {
+			break
+		}
+	}
+	_ = it.Close()
+	if s.Len() != total {
+		r.Violation("C18/Set.sort-under-add/len", idx, desc, fmt.Sprintf("Len()=%d after %d distinct values were added", s.Len(), total), nil)
+		return
+	}
+	if n != total {
+		r.Violation("C18/Set.sort-under-add/iterator-count", idx, desc, fmt.Sprintf("the set has %d members, the iterator yields %d values", total, n), nil)
+		return
+	}
+	for v := 0; v < total; v++ {
+		if seen[v] != 1 {
+			r.Violation("C18/Set.sort-under-add/iterator-members", idx, desc, fmt.Sprintf("member %d is yielded %d times by the iterator (%d members)", v, seen[v], total), nil)
+			return
+		}
+	}
+	if added.Load() > 0 {
+		r.Distinct(fmt.Sprintf("sortadd|%v|%s|p=%d", merge, lenClass(sorts), procs))
+	}
+	r.Count("sort_under_add_values_added_during_sorts", added.Load())
 }
 
 // c18EqualThenMutate: a sequential program compares two unordered sets
@@ -484,6 +585,8 @@ var setModelPartitioned = porcupine.Model{
 	Step: func(st, in, out any) (bool, any) {
 		present := st.(bool)
 		switch in.(setIn).Op {
+		case "sort":
+			return true, present // sorting changes no membership
 		case "add":
 			return out.(bool) == present, true
 		case "del":
@@ -501,6 +604,8 @@ var setModelWhole = porcupine.Model{
 		i := in.(setIn)
 		bit := uint32(1) << uint(i.Key)
 		switch i.Op {
+		case "sort":
+			return true, mask
 		case "add":
 			return out.(bool) == (mask&bit != 0), mask | bit
 		case "del":
@@ -534,6 +639,10 @@ func c18History(r *kit.Run, idx int64, rng *rand.Rand) {
 		for j := 0; j < per; j++ {
 			k := rng.IntN(nkeys)
 			switch x := rng.IntN(10); {
+			case ordered && x == 3:
+				// sorting an ordered set while the others use it (Key 100/101
+				// selects the algorithm; the partitioned model ignores it)
+				plans[c] = append(plans[c], setIn{"sort", 100 + rng.IntN(2)})
 			case x < 4:
 				plans[c] = append(plans[c], setIn{"add", k})
 			case x < 7:
@@ -568,6 +677,13 @@ func c18History(r *kit.Run, idx int64, rng *rand.Rand) {
 					in := in
 					h.Do(c, in, func() any {
 						switch in.Op {
+						case "sort":
+							if in.Key == 100 {
+								s.SortMerge(func(a, b int) bool { return a < b })
+							} else {
+								s.SortQuick(func(a, b int) bool { return a < b })
+							}
+							return true
 						case "add":
 							return s.AddCheck(in.Key)
 						case "del":
